@@ -1002,6 +1002,17 @@ func (e *SpecEnv) call(x *spec.Call) Val {
 			tc, _ := vc.traceCells(e.state())
 			return Val{T: B, Term: fmt.Sprintf("(= (ev_tag (select %s %s)) %s)", e.state().cells[tc], argT(0), vc.effectTag(sl.Val))}
 		}
+	case "evArg":
+		// evArg(k, T): the first non-string argument of the call recorded as event k, as a value of type T
+		if need(2) {
+			t, srt, ok := e.resolveType(spec.TypeExpr{Kind: "name", Name: x.Args[1].String()})
+			if !ok {
+				return e.fail(x, "evArg: unknown type %s", x.Args[1].String())
+			}
+			tc, _ := vc.traceCells(e.state())
+			_, unbox := vc.evBox(srt)
+			return Val{T: t, Sort: sortIfSpec(t, srt), Term: fmt.Sprintf("(%s (ev_arg (select %s %s)))", unbox, e.state().cells[tc], argT(0))}
+		}
 	case "evRecv", "evErr", "evS1", "evS2":
 		if need(1) {
 			tc, _ := vc.traceCells(e.state())
